@@ -187,10 +187,32 @@ Definition ReadyE (s : vfs) (pos : Z) : Prop :=
       ReachesE (cur_link s) false e w (q' ++ flat_map pg_pkts (rem1 s)) (pos - base_of s (v_link s))) /\
      v_pcm s <= pos.
 
+(* the granule position at which the run ends, when it closes with an end-of-stream packet: either that
+   packet is still to come, or the decoder has taken it and holds its granule position *)
+Variable gend : Z.
+Fixpoint ends_at (ps : list pkt) : Prop :=
+  match ps with
+  | [] => False
+  | p :: r => match r with [] => pk_eos p = true /\ pk_gran p = gend | _ => ends_at r end
+  end.
+Definition EndE (s : vfs) : Prop :=
+  match stream s with [] => d_gran (v_dec s) = gend | ps => ends_at ps end.
+Lemma ends_at_tl p r : ends_at (p :: r) -> pk_eos p = false -> r <> [] /\ ends_at r.
+Proof. cbn [ends_at]. destruct r as [|p2 r2]; [intros [H _] H2; congruence|]. intros H _. split; [discriminate|exact H]. Qed.
+Lemma EndE_same s t : stream t = stream s -> d_gran (v_dec t) = d_gran (v_dec s) -> EndE s -> EndE t.
+Proof. unfold EndE. intros H1 H2. rewrite H1, H2. tauto. Qed.
+Lemma EndE_same_ne s t : stream t = stream s -> stream s <> [] -> EndE s -> EndE t.
+Proof. unfold EndE. intros H1 H2. rewrite H1. destruct (Seek_lemmas.stream tail s); [congruence|tauto]. Qed.
+Lemma EndE_tl s t p r : stream s = p :: r -> pk_eos p = false -> stream t = r -> EndE s -> EndE t.
+Proof.
+  unfold EndE. intros H1 H2 H3. rewrite H1, H3. intros H. destruct (ends_at_tl p r H H2) as [A B].
+  destruct r; [congruence|exact B].
+Qed.
+
 Lemma seek_discard_ready_e : forall fuel s pos lb,
   (length (rem1 s) + length (stream s) < fuel)%nat ->
   Core s -> PlainRem s -> DPhaseE s lb pos ->
-  ReadyE (seek_discard fuel s pos lb) pos.
+  ReadyE (seek_discard fuel s pos lb) pos /\ (EndE s -> EndE (seek_discard fuel s pos lb)).
 Proof.
   induction fuel as [|f IH]; intros s pos lb Hfuel Hcore Hpl Hd; [lia|].
   cbn [seek_discard].
@@ -210,7 +232,8 @@ Proof.
       set (s1 := set_q (set_rem s (r1 ++ tail)) (pg_pkts pg) false (v_pno s)).
       assert (rem1 s1 = r1) as Hr1 by (apply rem1_app; reflexivity).
       assert (stream s1 = stream s) as Hst by (unfold Seek_lemmas.stream; rewrite Hr1, E1, Eq; unfold s1; cbn; reflexivity).
-      apply IH.
+      assert (EndE s -> EndE s1) as HE1 by (intros HE; eapply EndE_same; [exact Hst|reflexivity|exact HE]).
+      refine (let H := IH s1 pos lb _ _ _ _ in conj (proj1 H) (fun HE => proj2 H (HE1 HE))).
       * rewrite Hst, Hr1. cbn [length] in Hfuel. lia.
       * eapply view_core; [|exact Hcore]. reflexivity.
       * split; [reflexivity|]. split; [rewrite Hr1; reflexivity|rewrite Hr1; exact Hrest].
@@ -283,6 +306,7 @@ Proof.
       rewrite Z.shiftr_div_pow2 in Hle |- * by lia. change (2 ^ 2) with 4 in *. lia. }
     cbv zeta. destruct (v_pcm s1 + Z.shiftr (this + li_bs1 l) 2 >=? pos) eqn:Estop.
     + (* stop here: hand over *)
+      split; [|intros HE; eapply EndE_same; [unfold Seek_lemmas.stream; rewrite Q1, Q5; reflexivity|rewrite V6; reflexivity|exact HE]].
       exists p, q', w, eh. rewrite Q1, Q5, Hl1, Hbase1, V6. fold target. fold d. split; [exact Eq|]. split; [exact Hw|]. split; [exact Hps|].
       split; [destruct Hkn as [Hkn|(K1 & _ & K3)]; [left; exact Hkn|right; split; assumption]|].
       split; [exact Hrest|].
@@ -313,7 +337,9 @@ Proof.
       injection Hv3 as W1 W2 W3 W4 W5 W6 W7 W8.
       assert (cur_link s3 = l) as Hl3 by (unfold cur_link, nth_link; rewrite W2, W3; reflexivity).
       assert (base_of s3 (v_link s3) = base_of s (v_link s)) as Hbase3 by (unfold base_of; rewrite W2, W3; reflexivity).
-      apply IH.
+      assert (EndE s -> EndE s3) as HE3.
+      { intros HE. eapply EndE_tl; [exact Hst|exact Heos| |exact HE]. unfold Seek_lemmas.stream. rewrite R1, R5. reflexivity. }
+      refine (let H := IH s3 pos this _ _ _ _ in conj (proj1 H) (fun HE => proj2 H (HE3 HE))).
       * unfold Seek_lemmas.stream. rewrite R1, R5. rewrite Hst in Hfuel. cbn [length] in Hfuel. lia.
       * unfold Core. rewrite Hl3, W1, W5, W7. repeat split; try assumption. lia.
       * unfold Seek_lemmas.PlainRem. rewrite R2, R3, R5, W4. exact Hpl.
@@ -338,14 +364,15 @@ Definition TruthfulE (s : vfs) (pos : Z) : Prop := ReadyE s pos \/ NReadyE s pos
 (* the sample-discarding loop of ov_pcm_seek keeps the position truthful, through the link's last packet too *)
 Lemma seek_skip_truthful_e : forall fuel s pos,
   (length (stream s) + (if (v_pcm s <? pos)%Z then 2 else 1) <= fuel)%nat ->
-  TruthfulE s pos -> TruthfulE (seek_skip fuel s pos) pos /\ pos <= v_pcm (seek_skip fuel s pos).
+  TruthfulE s pos -> TruthfulE (seek_skip fuel s pos) pos /\ pos <= v_pcm (seek_skip fuel s pos) /\
+                     (EndE s -> EndE (seek_skip fuel s pos)).
 Proof.
   induction fuel as [|f IH]; intros s pos Hfuel HT; [destruct (v_pcm s <? pos); lia|].
   assert (Core s) as Hcore by (destruct HT as [(p & q' & w & e & _ & _ & _ & _ & _ & H & _)|(e & H & _)]; exact H).
   assert (PlainRem s) as Hpl by (destruct HT as [(p & q' & w & e & _ & _ & _ & _ & _ & _ & H & _)|(e & _ & H & _)]; exact H).
   pose proof Hcore as (Hhs & Hrs & Hb0 & Hb1 & Hb01 & Hm0 & Hm1 & Hi & Hpno).
   cbn [seek_skip]. cbv zeta. rewrite Hhs, !Z.shiftr_0_r, !Z.shiftl_0_r, Hrs. change (INITSET =? INITSET) with true. cbv iota.
-  destruct (v_pcm s <? pos) eqn:Elt; [|split; [exact HT|lia]].
+  destruct (v_pcm s <? pos) eqn:Elt; [|split; [exact HT|split; [lia|tauto]]].
   destruct (pos - v_pcm s <=? 0) eqn:Et; [lia|].
   destruct HT as [(p & q' & w & e & Eq & Hw & Hps & Hkn & Hin & _ & _ & Hreach & Hle)|(e & _ & _ & Hr0 & Hrc & Hs0 & Hs1 & Hpcm & He0 & Htr & Hin & Hreach & Hle)].
   - (* quiet decoder: nothing to discard yet, take the next packet *)
@@ -381,7 +408,10 @@ Proof.
       - rewrite L1 in Hg. fold l in Hg. destruct Hg as [Hg|Hg]; [left; exact Hg|right; lia].
       - rewrite L6, L7. fold d. fold l in Hkn. destruct Hkn as [Hkn|(K1 & K3)]; [left; lia|right].
         rewrite L6, L7 in Hph. fold d in Hph. destruct Hph as [Hf|(Hs0' & Hs1' & _)]; [lia|]. repeat split; lia. }
-    apply IH.
+    assert (EndE s -> EndE (feed s0 p w)) as HEn.
+    { intros HE. eapply EndE_tl; [unfold Seek_lemmas.stream; rewrite Eq; reflexivity| |rewrite stream_feed; exact Hst0|exact HE].
+      destruct Hps as (_ & _ & _ & H & _); exact H. }
+    refine (let H := IH (feed s0 p w) pos _ _ in conj (proj1 H) (conj (proj1 (proj2 H)) (fun HE => proj2 (proj2 H) (HEn HE)))).
     + rewrite stream_feed, Hst0. assert (stream s = p :: q' ++ flat_map pg_pkts (rem1 s)) as Hst by (unfold Seek_lemmas.stream; rewrite Eq; reflexivity).
       rewrite Hst in Hfuel. cbn [length] in Hfuel. destruct (v_pcm (feed s0 p w) <? pos); lia.
     + right. exists e. cbv zeta. rewrite L3, L4, L1, L2, stream_feed, Hst0.
@@ -443,7 +473,9 @@ Proof.
         rewrite L5, L6, L1, ?L8 in Hfs, Hfk. change (d_W d1) with (d_W d) in Hfs, Hfk. rewrite !bsz_blocksize in Hfs, Hfk. fold l in Hfs, Hfk. fold stp in Hfs, Hfk.
         destruct Hfs as (G1 & G2 & G3 & G4 & G5 & G6 & G7).
         rewrite Heos in Hre.
-        apply IH.
+        assert (EndE s -> EndE (feed s0 p w)) as HEn.
+        { intros HE. eapply EndE_tl; [exact Est|exact Heos|rewrite stream_feed; exact Hst0|exact HE]. }
+        refine (let H := IH (feed s0 p w) pos _ _ in conj (proj1 H) (conj (proj1 (proj2 H)) (fun HE => proj2 (proj2 H) (HEn HE)))).
         -- rewrite stream_feed, Hst0. cbn [length] in Hfuel. destruct (v_pcm (feed s0 p w) <? pos); lia.
         -- right. exists (e + n). cbv zeta. rewrite L3, L4, L1, L2, stream_feed, Hst0, G2, G7.
            split; [apply core_feed; exact Hc0|]. split; [apply plain_feed; exact Hpl0|].
@@ -456,14 +488,17 @@ Proof.
         pose proof (feed_eos_pending s0 (e + n) p w L Hsy Hk0 Heos) as Hfe'. cbv zeta in Hfe'.
         rewrite L5, L6, L1, ?L8 in Hfe'. change (d_W d1) with (d_W d) in Hfe'. rewrite !bsz_blocksize in Hfe'. fold l in Hfe'. fold stp in Hfe'.
         destruct Hfe' as (G1 & G2 & G4 & G5 & G6 & G7); [unfold L; lia|lia|].
-        apply IH.
+        assert (EndE s -> EndE (feed s0 p w)) as HEn.
+        { unfold EndE. rewrite Est, stream_feed, Hst0. cbn [ends_at]. intros [_ HE]. rewrite G6. unfold L. lia. }
+        refine (let H := IH (feed s0 p w) pos _ _ in conj (proj1 H) (conj (proj1 (proj2 H)) (fun HE => proj2 (proj2 H) (HEn HE)))).
         -- rewrite stream_feed, Hst0. cbn [length] in Hfuel |- *. destruct (v_pcm (feed s0 p w) <? pos); lia.
         -- right. exists (e + n). cbv zeta. rewrite L3, L4, L1, L2, stream_feed, Hst0, G2, G7.
            split; [apply core_feed; exact Hc0|]. split; [apply plain_feed; exact Hpl0|].
            destruct (feed_fields s0 p w) as (_ & _ & _ & _ & _ & _ & _ & _ & F9 & _).
            rewrite F9, G4, G5, L7. cbn [IntactE]. repeat split; try assumption; try lia.
     + (* the target lies inside what is pending *)
-      apply IH.
+      assert (EndE s -> EndE s1) as HEn by (intros HE; eapply EndE_same; [exact Hst1|reflexivity|exact HE]).
+      refine (let H := IH s1 pos _ _ in conj (proj1 H) (conj (proj1 (proj2 H)) (fun HE => proj2 (proj2 H) (HEn HE)))).
       * rewrite Hst1. change (v_pcm s1) with (v_pcm s + samples). destruct (v_pcm s + samples <? pos) eqn:E; [lia|]. lia.
       * right. exists (e + samples). cbv zeta.
         change (cur_link s1) with l. change (v_dec s1) with d1. change (base_of s1 (v_link s1)) with (base_of s (v_link s)).
@@ -506,7 +541,8 @@ Qed.
 (* ov_pcm_seek on a link that is intact up to its end: the position it reports is truthful *)
 Theorem pcm_seek_truthful_e s pos s1 :
   pcm_seek_page s pos = (0, s1) -> LandedE s1 pos ->
-  fst (pcm_seek s pos) = 0 /\ TruthfulE (snd (pcm_seek s pos)) pos /\ v_pcm (snd (pcm_seek s pos)) = pos.
+  fst (pcm_seek s pos) = 0 /\ TruthfulE (snd (pcm_seek s pos)) pos /\ v_pcm (snd (pcm_seek s pos)) = pos /\
+  (EndE s1 -> EndE (snd (pcm_seek s pos))).
 Proof.
   intros Hpage Hland. unfold pcm_seek. rewrite Hpage. change (0 <? 0) with false. cbv iota. cbn [fst snd].
   split; [reflexivity|].
@@ -514,15 +550,18 @@ Proof.
   set (s2 := make_ready s1) in *.
   pose proof (seek_discard_ready_e (length (v_rem s2) + pkt_count (v_rem s2) + length (v_q s2) + 2) s2 pos 0) as Hdis.
   set (s3 := seek_discard (length (v_rem s2) + pkt_count (v_rem s2) + length (v_q s2) + 2) s2 pos 0) in *.
-  assert (ReadyE s3 pos) as Hready.
+  assert (ReadyE s3 pos /\ (EndE s2 -> EndE s3)) as [Hready HE23].
   { apply Hdis; try assumption. destruct (stream_bound tail s2 Hpl2) as [B1 B2]. lia. }
+  assert (EndE s1 -> EndE s2) as HE12.
+  { intros HE. eapply EndE_same_ne; [exact Hst2| |exact HE].
+    destruct Hland as (_ & _ & _ & _ & _ & _ & _ & _ & _ & _ & _ & _ & _ & _ & Hh). destruct (Seek_lemmas.stream tail s1); [contradiction|discriminate]. }
   assert (PlainRem s3) as Hpl3 by (destruct Hready as (p & q' & w & e & _ & _ & _ & _ & _ & _ & H & _); exact H).
-  destruct (seek_skip_truthful_e (pkt_count (v_rem s3) + length (v_q s3) + 3) s3 pos) as [HT Hge]; [|left; exact Hready|].
+  destruct (seek_skip_truthful_e (pkt_count (v_rem s3) + length (v_q s3) + 3) s3 pos) as (HT & Hge & HE34); [|left; exact Hready|].
   { destruct (stream_bound tail s3 Hpl3) as [B1 B2]. destruct (v_pcm s3 <? pos); lia. }
   split; [exact HT|].
   assert (v_pcm (seek_skip (pkt_count (v_rem s3) + length (v_q s3) + 3) s3 pos) <= pos) as Hle.
   { destruct HT as [(p & q' & w & e & _ & _ & _ & _ & _ & _ & _ & _ & H)|(e & _ & _ & _ & _ & _ & _ & _ & _ & _ & _ & _ & H)]; exact H. }
-  lia.
+  split; [lia|]. intros HE. apply HE34, HE23, HE12, HE.
 Qed.
 
 (* what "truthful" buys: the samples delivered next are those at the reported position, and the decoder
@@ -615,12 +654,73 @@ Qed.
 Theorem pcm_seek_intact_e s pos s1 :
   v_hs s = 0 -> OPENED <= v_rs s <= INITSET ->
   pcm_seek_page s pos = (0, s1) -> fallback s pos = false -> FileIntactE s1 pos ->
-  fst (pcm_seek s pos) = 0 /\ TruthfulE (snd (pcm_seek s pos)) pos /\ v_pcm (snd (pcm_seek s pos)) = pos.
+  fst (pcm_seek s pos) = 0 /\ TruthfulE (snd (pcm_seek s pos)) pos /\ v_pcm (snd (pcm_seek s pos)) = pos /\
+  (EndE s1 -> EndE (snd (pcm_seek s pos))).
 Proof.
   intros Hhs Hrs Hpage Hfb (Hb0 & Hb1 & Hb01 & Hm0 & Hm1 & Hi & Hpl & Hin & Hre & Hhead).
   destruct (page_seek_facts s pos s1 Hpage Hfb Hrs) as (F1 & F2 & F3 & F4 & F5).
   apply (pcm_seek_truthful_e s pos s1 Hpage).
   unfold LandedE. rewrite F1. split; [exact Hhs|]. split; [exact F2|]. repeat (split; [assumption|]). split; [lia|]. split; [exact Hin|]. split; [exact Hre|]. split; [lia|exact Hhead].
+Qed.
+
+(* the first fetch from a handed-over state: the queued packet goes in quietly and the handle is in sync *)
+Lemma ready_e_fetch s pos : ReadyE s pos ->
+  exists p rest w s0, stream s = p :: rest /\ pk_eos p = false /\
+    fetch (fetch_fuel s) s = (1, feed s0 p w) /\ NReadyE (feed s0 p w) pos /\ stream (feed s0 p w) = rest /\
+    v_pcm (feed s0 p w) = v_pcm s /\ d_ret (v_dec (feed s0 p w)) = d_cur (v_dec (feed s0 p w)) /\
+    cur_link (feed s0 p w) = cur_link s /\ base_of (feed s0 p w) (v_link (feed s0 p w)) = base_of s (v_link s).
+Proof.
+  intros (p & q' & w & e & Eq & Hw & Hps & Hkn & Hin & Hcore & Hpl & Hreach & Hle).
+  pose proof Hcore as (Hhs & Hrs & Hb0 & Hb1 & Hb01 & Hm0 & Hm1 & Hi & Hpno).
+  set (d := v_dec s) in *. set (l := cur_link s) in *.
+  assert (stream s = p :: q' ++ flat_map pg_pkts (rem1 s)) as Hst1 by (unfold Seek_lemmas.stream; rewrite Eq; reflexivity).
+  assert (Forall audio (stream s)) as Hau.
+  { rewrite Hst1. constructor; [exists w; exact Hw|]. eapply intact_e_audio. exact Hin. }
+  destruct (fetch_plain tail (fetch_fuel s) s p (q' ++ flat_map pg_pkts (rem1 s)) Hrs Hpl Hau) as (w' & s0 & Hw' & Hfe & Hv0 & Hst0 & Hpl0);
+    [unfold fetch_fuel; destruct (stream_bound tail s Hpl) as [B1 B2]; lia|exact Hst1|].
+  rewrite Hw in Hw'. injection Hw' as <-.
+  assert (Core s0) as Hc0 by (eapply view_core; [symmetry; exact Hv0|exact Hcore]).
+  assert (PreSync s0 e p w) as Hps0 by (eapply view_presync; [symmetry; exact Hv0|exact Hps]).
+  destruct (feed_presync s0 e p w Hc0 Hps0) as (Hsync & Hout' & HW').
+  destruct (view_link _ _ Hv0) as (L1 & L2 & L5 & L6 & L7 & L8 & _).
+  destruct (link_feed s0 p w) as (L3 & L4).
+  assert (d_gran (v_dec (feed s0 p w)) = li_init l + e) as Hknown.
+  { destruct (presync_blockin s0 e p w true Hc0 Hps0) as (d' & Eb & _ & _ & _ & _ & Htr').
+    rewrite (feed_dec_eq s0 p w 0 d' Eb). rewrite L1 in Htr'. apply tracking_known; [exact Htr'|].
+    destruct Hps0 as (_ & _ & He0 & _ & Hg & Hph).
+    apply (blockin_gran_known _ _ _ _ Eb); cbn [k_W k_gran k_seq].
+    - rewrite !bsz_blocksize, L1. fold l. assert (0 <= blocksize l (d_W (v_dec s0)) / 4 /\ 0 <= blocksize l w / 4) by (unfold blocksize; destruct (d_W (v_dec s0)), w; split; apply Z.div_pos; lia). lia.
+    - rewrite L1 in Hg. fold l in Hg. destruct Hg as [Hg|Hg]; [left; exact Hg|right; lia].
+    - rewrite L6, L7. fold d. fold l in Hkn. destruct Hkn as [Hkn|(K1 & K3)]; [left; lia|right].
+      rewrite L6, L7 in Hph. fold d in Hph. destruct Hph as [Hf|(Hs0' & Hs1' & _)]; [lia|]. repeat split; lia. }
+  destruct Hsync as (_ & _ & _ & _ & S5 & S6 & S7 & S8 & S9 & S10 & S11).
+  rewrite L4, L2 in S9.
+  exists p, (q' ++ flat_map pg_pkts (rem1 s)), w, s0.
+  split; [exact Hst1|]. split; [destruct Hps as (_ & _ & _ & H & _); exact H|]. split; [exact Hfe|].
+  split; [|split; [rewrite stream_feed; exact Hst0|split; [|split; [exact S5|split; [rewrite L3; exact L1|rewrite L4; exact L2]]]]].
+  - exists e. cbv zeta. rewrite L3, L4, L1, L2, stream_feed, Hst0.
+    split; [apply core_feed; exact Hc0|]. split; [apply plain_feed; exact Hpl0|].
+    rewrite S5. replace (e + (d_cur (v_dec (feed s0 p w)) - d_cur (v_dec (feed s0 p w)))) with e by lia.
+    rewrite HW'. rewrite <- S5. fold l.
+    split; [exact S6|]. split; [lia|]. split; [exact S7|]. split; [exact S8|]. split; [exact S9|]. split; [exact S10|]. split; [exact Hknown|].
+    split; [exact Hin|]. split; [destruct Hreach as [Hle'|Hre]; [left; lia|right; exact Hre]|].
+    rewrite S9. destruct Hps as (_ & Hpcm & _). lia.
+  - rewrite S9. destruct Hps as (_ & Hpcm & _). lia.
+Qed.
+
+(* a run that closes with the end-of-stream packet cannot extend beyond the position that packet gives *)
+Lemma intact_e_end l : 0 < li_bs0 l -> 0 < li_bs1 l ->
+  forall ps e lW, IntactE l false e lW ps -> ends_at ps -> e <= gend - li_init l.
+Proof.
+  intros Hb0 Hb1. induction ps as [|p r IH]; intros e lW Hin Hend; [contradiction|].
+  cbn [IntactE] in Hin. destruct Hin as (w & Hw & Hok & Hrest).
+  assert (0 <= blocksize l lW / 4 + blocksize l w / 4) as Hstp.
+  { assert (0 <= blocksize l lW / 4 /\ 0 <= blocksize l w / 4) by (unfold blocksize; destruct lW, w; split; apply Z.div_pos; lia). lia. }
+  destruct r as [|p2 r2].
+  - cbn [ends_at] in Hend. destruct Hend as [He Hg]. destruct Hok as [(F & _)|(_ & _ & _ & HL)]; [congruence|]. lia.
+  - destruct Hok as [_|(_ & F & _)]; [|discriminate F].
+    assert (ends_at (p2 :: r2)) as Hend2 by exact Hend.
+    specialize (IH _ _ Hrest Hend2). lia.
 Qed.
 
 End TailE.
@@ -659,14 +759,169 @@ Definition seek_hyps_e (s : vfs) (pos : Z) : bool :=
 Theorem pcm_seek_checked_e s pos :
   seek_hyps_e s pos = true ->
   fst (pcm_seek s pos) = 0 /\ v_pcm (snd (pcm_seek s pos)) = pos /\
-  TruthfulE (auto_tail_e (snd (pcm_seek_page s pos))) (snd (pcm_seek s pos)) pos.
+  TruthfulE (auto_tail_e (snd (pcm_seek_page s pos))) (snd (pcm_seek s pos)) pos /\
+  forall gend, EndE (auto_tail_e (snd (pcm_seek_page s pos))) gend (snd (pcm_seek_page s pos)) ->
+               EndE (auto_tail_e (snd (pcm_seek_page s pos))) gend (snd (pcm_seek s pos)).
 Proof.
   unfold seek_hyps_e. intros H.
   repeat (apply andb_prop in H; let H' := fresh "C" in destruct H as [H H']).
   destruct (pcm_seek_page s pos) as [rc s1] eqn:Ep. cbn [fst snd] in *.
   assert (rc = 0) by lia. subst rc.
-  destruct (pcm_seek_intact_e (auto_tail_e s1) s pos s1) as (A & B & D); try assumption; try lia.
-  - destruct (fallback s pos); [discriminate|reflexivity].
-  - apply file_intact_eb_ok; [exact C|apply auto_tail_e_split].
-  - split; [exact A|]. split; [exact D|exact B].
+  assert (fallback s pos = false) as Hfb by (destruct (fallback s pos); [discriminate|reflexivity]).
+  assert (FileIntactE (auto_tail_e s1) s1 pos) as Hfi by (apply file_intact_eb_ok; [exact C|apply auto_tail_e_split]).
+  destruct (pcm_seek_intact_e (auto_tail_e s1) 0 s pos s1) as (A & B & D & _); try assumption; try lia.
+  split; [exact A|]. split; [exact D|]. split; [exact B|].
+  intros gend. destruct (pcm_seek_intact_e (auto_tail_e s1) gend s pos s1) as (_ & _ & _ & E); try assumption; try lia.
+Qed.
+
+
+(* ---- the end of the physical stream: nothing follows the run ---------------------------------------- *)
+
+(* pages without packets, then nothing: end of file *)
+Lemma fetch_at_end : forall fuel s,
+  v_rs s = INITSET -> PlainRem [] s -> stream [] s = [] -> (length (v_rem s) < fuel)%nat ->
+  exists s', fetch fuel s = (OV_EOF_, s').
+Proof.
+  induction fuel as [|f IH]; intros s Hrs Hpl Hst Hf; [lia|].
+  cbn [fetch]. rewrite (make_ready_initset s Hrs). rewrite Hrs. cbn [Z.eqb Pos.eqb andb].
+  assert (v_q s = []) as Eq by (unfold stream in Hst; destruct (v_q s); [reflexivity|discriminate]).
+  rewrite Eq.
+  destruct Hpl as (Hfr & Hsplit & Hall).
+  destruct (rem1 [] s) as [|pg r1] eqn:E1.
+  - cbn [app] in Hsplit. rewrite Hsplit. eexists. reflexivity.
+  - cbn [app] in Hsplit. rewrite Hsplit.
+    inversion Hall as [|x y [Hser Hbos] Hrest]; subst x y.
+    cbn [v_rs set_rem v_serial]. rewrite Hrs, Hser. rewrite !Z.eqb_refl. change (INITSET <? STREAMSET) with false. cbn [negb andb].
+    assert (os_pagein (set_rem s (r1 ++ [])) pg = set_q (set_rem s (r1 ++ [])) (pg_pkts pg) false (v_pno s)) as Hpi.
+    { unfold os_pagein. cbn [v_serial set_rem v_fresh v_q v_pno]. rewrite Hser, Z.eqb_refl, Hfr, Eq. reflexivity. }
+    rewrite Hpi.
+    set (s1 := set_q (set_rem s (r1 ++ [])) (pg_pkts pg) false (v_pno s)).
+    assert (rem1 [] s1 = r1) as Hr1 by (apply rem1_app; reflexivity).
+    assert (stream [] s1 = stream [] s) as Hst1 by (unfold stream; rewrite Hr1, E1, Eq; unfold s1; cbn; reflexivity).
+    apply IH.
+    + exact Hrs.
+    + split; [reflexivity|]. split; [rewrite Hr1; reflexivity|rewrite Hr1; exact Hrest].
+    + rewrite Hst1. exact Hst.
+    + unfold s1. cbn [v_rem set_q set_rem]. rewrite Hsplit in Hf. cbn [length] in Hf. lia.
+Qed.
+
+(* in sync exactly at the position the end-of-stream packet gives, nothing after the run: the next read
+   reports end of file *)
+Lemma nready_end_eof gend s pos len : forall fuel, (2 <= fuel)%nat ->
+  NReadyE [] s pos -> EndE [] gend s -> v_pcm s = pos ->
+  pos - base_of s (v_link s) = gend - li_init (cur_link s) ->
+  fst (fst (read_float fuel s len)) = 0.
+Proof.
+  intros fuel Hfuel (e & Hcore & Hpl & Hr0 & Hrc & Hs0 & Hs1 & Hpcm & He0 & Htr & Hin & Hreach & Hle) HE Hpos Hend.
+  cbv zeta in *. set (d := v_dec s) in *. set (l := cur_link s) in *. set (n := d_cur d - d_ret d) in *.
+  pose proof Hcore as (Hhs & Hrs & Hb0 & Hb1 & Hb01 & Hm0 & Hm1 & Hi & Hpno).
+  fold l in Hb0, Hb1, Hb01, Hm0, Hm1, Hi.
+  assert (e = gend - li_init l) as Hee by lia.
+  destruct fuel as [|f]; [lia|]. cbn [read_float]. rewrite Hrs. change (INITSET =? INITSET) with true. cbv iota.
+  unfold EndE in HE.
+  destruct (stream [] s) as [|p r] eqn:Est.
+  - (* the end-of-stream packet has been taken *)
+    fold d in HE. assert (n = 0) as Hn by lia.
+    assert (dec_pcmout d = 0) as Hout by (unfold dec_pcmout; destruct ((d_ret d >? -1) && (d_ret d <? d_cur d)) eqn:E; unfold n in *; lia).
+    fold d. rewrite Hout. change (negb (0 =? 0)) with false. cbv iota.
+    destruct (fetch_at_end (fetch_fuel s) s Hrs Hpl Est) as (s' & Hf'); [unfold fetch_fuel; lia|].
+    rewrite Hf'. change (OV_EOF_ =? OV_EOF_) with true. reflexivity.
+  - cbn [IntactE] in Hin. destruct Hin as (w & Hw & Hok & Hrest).
+    set (stp := blocksize l (d_W d) / 4 + blocksize l w / 4) in *.
+    destruct r as [|p2 r2].
+    + (* the end-of-stream packet is next, and adds nothing *)
+      cbn [ends_at] in HE. destruct HE as [Heos Hg].
+      destruct Hok as [(F & _)|(_ & _ & _ & HL)]; [congruence|].
+      assert (n = 0) as Hn by lia.
+      assert (dec_pcmout d = 0) as Hout by (unfold dec_pcmout; destruct ((d_ret d >? -1) && (d_ret d <? d_cur d)) eqn:E; unfold n in *; lia).
+      fold d. rewrite Hout. change (negb (0 =? 0)) with false. cbv iota.
+      assert (Forall audio (stream [] s)) as Hau by (rewrite Est; constructor; [exists w; exact Hw|constructor]).
+      destruct (fetch_plain [] (fetch_fuel s) s p [] Hrs Hpl Hau) as (w' & s0 & Hw' & Hfe & Hv0 & Hst0 & Hpl0);
+        [unfold fetch_fuel; destruct (stream_bound [] s Hpl) as [B1 B2]; lia|exact Est|].
+      rewrite Hw in Hw'. injection Hw' as <-. rewrite Hfe.
+      change (1 =? OV_EOF_) with false. change (1 <=? 0) with false. cbv iota.
+      assert (Core s0) as Hc0 by (eapply view_core; [symmetry; exact Hv0|exact Hcore]).
+      destruct (view_link _ _ Hv0) as (L1 & L2 & L5 & L6 & L7 & L8 & _).
+      fold l in L1. fold d in L6.
+      assert (d_ret d = d_cur d) as Hrc0 by (unfold n in *; lia).
+      assert (d_gran d = li_init l + e) as Htr0 by (unfold n in *; lia).
+      assert (SyncInv s0 e) as Hsy.
+      { unfold SyncInv. rewrite L1, L2, L6, L7, L8. destruct Hc0 as (A & _). rewrite A.
+        repeat split; try lia; try (apply Z.lt_le_incl; assumption); try assumption. right. exact Htr0. }
+      assert (d_gran (v_dec s0) = li_init (cur_link s0) + e) as Hk0 by (rewrite L6, L1; exact Htr0).
+      pose proof (feed_eos_pending s0 e p w (pk_gran p - li_init l) Hsy Hk0 Heos) as Hfe'. cbv zeta in Hfe'.
+      rewrite L5, L6, L1 in Hfe'. rewrite !bsz_blocksize in Hfe'. fold l in Hfe'. fold stp in Hfe'.
+      destruct Hfe' as (G1 & G2 & G4 & G5 & G6 & G7); [lia|lia|].
+      destruct f as [|f']; [lia|]. cbn [read_float].
+      assert (Core (feed s0 p w)) as Hcf by (apply core_feed; exact Hc0).
+      destruct Hcf as (_ & Hrsf & _). rewrite Hrsf. change (INITSET =? INITSET) with true. cbv iota.
+      assert (dec_pcmout (v_dec (feed s0 p w)) = 0) as Hout2.
+      { unfold dec_pcmout. destruct ((d_ret (v_dec (feed s0 p w)) >? -1) && (d_ret (v_dec (feed s0 p w)) <? d_cur (v_dec (feed s0 p w)))) eqn:E; lia. }
+      rewrite Hout2. change (negb (0 =? 0)) with false. cbv iota.
+      destruct (fetch_at_end (fetch_fuel (feed s0 p w)) (feed s0 p w) Hrsf (plain_feed [] s0 p w Hpl0)) as (s' & Hf');
+        [rewrite stream_feed; exact Hst0|unfold fetch_fuel; lia|].
+      rewrite Hf'. change (OV_EOF_ =? OV_EOF_) with true. reflexivity.
+    + (* more than one packet left: the run would extend beyond its own end *)
+      exfalso. destruct Hok as [_|(_ & F & _)]; [|discriminate F].
+      assert (ends_at gend (p2 :: r2)) as HE2 by exact HE.
+      pose proof (intact_e_end gend l Hb0 Hb1 _ _ _ Hrest HE2) as Hb.
+      assert (1 <= blocksize l (d_W d) / 4 /\ 1 <= blocksize l w / 4) by (unfold blocksize; destruct (d_W d), w; lia).
+      unfold stp, n in *. lia.
+Qed.
+
+(* after a sample-accurate seek to the end of the last link, the next read reports end of file *)
+Theorem seek_end_then_eof gend s pos len :
+  TruthfulE [] s pos -> EndE [] gend s -> v_pcm s = pos ->
+  pos - base_of s (v_link s) = gend - li_init (cur_link s) ->
+  fst (fst (read_float (read_fuel s) s len)) = 0.
+Proof.
+  intros [HR|HN] HE Hpos Hend.
+  - pose proof HR as (p0 & q0 & w0 & e0 & Eq & _ & Hps & _ & _ & Hcore & _).
+    destruct (ready_e_fetch [] s pos HR) as (p & rest & w & s0 & Hst & Heos & Hfe & HNf & Hstf & Hpcmf & Hrc & Hlf & Hbf).
+    destruct Hcore as (_ & Hrs & _). destruct Hps as (Hret & _).
+    destruct (read_fuel s) as [|f] eqn:Ef; [unfold read_fuel in Ef; rewrite Eq in Ef; cbn [length] in Ef; lia|].
+    assert (2 <= f)%nat as Hf2 by (unfold read_fuel in Ef; rewrite Eq in Ef; cbn [length] in Ef; lia).
+    cbn [read_float].
+    rewrite Hrs. change (INITSET =? INITSET) with true. cbv iota.
+    assert (dec_pcmout (v_dec s) = 0) as Hout by (unfold dec_pcmout; rewrite Hret; reflexivity).
+    rewrite Hout. change (negb (0 =? 0)) with false. cbv iota. rewrite Hfe.
+    change (1 =? OV_EOF_) with false. change (1 <=? 0) with false. cbv iota.
+    apply (nready_end_eof gend _ pos); [exact Hf2|exact HNf| |lia|rewrite Hlf, Hbf; exact Hend].
+    eapply EndE_tl; [exact Hst|exact Heos|exact Hstf|exact HE].
+  - apply (nready_end_eof gend _ pos); [unfold read_fuel; lia|exact HN|exact HE|exact Hpos|exact Hend].
+Qed.
+
+Fixpoint ends_atb (gend : Z) (ps : list pkt) : bool :=
+  match ps with
+  | [] => false
+  | p :: r => match r with [] => pk_eos p && (pk_gran p =? gend) | _ => ends_atb gend r end
+  end.
+Lemma ends_atb_ok gend : forall ps, ends_atb gend ps = true -> ends_at gend ps.
+Proof.
+  induction ps as [|p r IH]; [discriminate|]. cbn [ends_atb ends_at]. destruct r as [|p2 r2]; [|exact IH].
+  intros H. apply andb_prop in H. destruct H as [A B]. split; [exact A|lia].
+Qed.
+
+(* the hypotheses of "seek to the end, then end of file" as one executable test: the sample seek is covered
+   by pcm_seek_checked_e, nothing follows the run in the file, and the run closes with an end-of-stream
+   packet whose granule position is the target *)
+Definition seek_end_hyps (s : vfs) (pos : Z) : bool :=
+  let s1 := snd (pcm_seek_page s pos) in
+  let s' := snd (pcm_seek s pos) in
+  seek_hyps_e s pos && (match auto_tail_e s1 with [] => true | _ => false end) &&
+  ends_atb (pos - base_of s' (v_link s') + li_init (cur_link s')) (stream [] s1).
+
+Theorem seek_to_end_checked s pos len :
+  seek_end_hyps s pos = true ->
+  let s' := snd (pcm_seek s pos) in
+  fst (pcm_seek s pos) = 0 /\ v_pcm s' = pos /\ fst (fst (read_float (read_fuel s') s' len)) = 0.
+Proof.
+  unfold seek_end_hyps. intros H. apply andb_prop in H. destruct H as [H H3]. apply andb_prop in H. destruct H as [H1 H2].
+  destruct (pcm_seek_checked_e s pos H1) as (A & B & T & E).
+  destruct (auto_tail_e (snd (pcm_seek_page s pos))) as [|x y] eqn:Et; [|discriminate].
+  cbv zeta. split; [exact A|]. split; [exact B|].
+  set (s' := snd (pcm_seek s pos)) in *. set (s1 := snd (pcm_seek_page s pos)) in *.
+  set (gend := pos - base_of s' (v_link s') + li_init (cur_link s')) in *.
+  apply (seek_end_then_eof gend s' pos len T); [|exact B|unfold gend; lia].
+  apply E. unfold EndE. apply ends_atb_ok in H3. destruct (stream [] s1); [contradiction|exact H3].
 Qed.
